@@ -254,7 +254,7 @@ class World:
         want_bad_pow = hdr.get("pow") == "bad"
         tgt_int = int.from_bytes(target, "big")
         raw_at = (lambda h: self.uni.nodes[pnode.chain[h]].blk.raw())
-        start_nonce = int.from_bytes(hashlib.sha256(op["label"].encode()).digest()[:3], "big")
+        start_nonce = int.from_bytes(hashlib.sha256(op["label"].encode()).digest()[:4], "big")   # full u32 range, as real miners use
         for n in range(max_tries):
             blk.nonce = (start_nonce + n) & 0xFFFFFFFF
             if blk.height >= 1 and blk.height - 1 < len(pnode.chain):
